@@ -21,11 +21,11 @@ RULE = ('per data set (Q: all orderings of 4 of the 1-D lattice {0,1,2,4,7,11}, 
         'T: + 5-point 1-D sets, 3x3 grid n=4) x metric {euclidean, manhattan, chebyshev} x k in {2,3}: initial states = '
         'k-centers state + nearest-center state of every k-subset; BFS depth 2 (T: 3) applying every proposal list in '
         '{0..n-1}^k through the real sweep; state key = (medoids, labels, distances); non-trivial = transition that '
-        'accepted >=1 proposal; then kmedoids/hybrid for sweeps 0..3 x seeds {s,s+1,s+2}; warm starts: every k-subset x every split of the frames '
+        'accepted >=1 proposal; then kmedoids/hybrid for sweeps 0..3 x seeds {s,s+1,s+2} (also with the non-metric squared-euclidean callable, and on 5/6-point 1-D sets with k in {2,3,4}; hybrid with 0 sweeps must BE the k-centers solution); warm starts: every k-subset x every split of the frames '
         'into trajectories x 4 ways of supplying the state (flat ids, (traj,frame) pairs, labels+distances, all)')
 ASSUMPTIONS = ['cost comparison tolerance 1e-12 relative', 'small-scope: n<=5 frames, k<=3',
                'random proposals observed through a recording RandomState subclass (no source hook)']
-GUARDS = {'warm_forms': 500, 'accepted': 500, 'rejected': 500, 'proposal_outside_cluster': 500, 'proposal_is_other_medoid': 100,
+GUARDS = {'nonmetric_dissimilarity': 200, 'e2e_larger_sets': 200, 'warm_forms': 500, 'accepted': 500, 'rejected': 500, 'proposal_outside_cluster': 500, 'proposal_is_other_medoid': 100,
           'random_path_checked': 100, 'e2e_improved': 50}
 NSH = {'quick': 48, 'thorough': 256}
 METRICS = ('euclidean', 'manhattan', 'chebyshev')
@@ -225,6 +225,11 @@ def check_e2e(pts, metric, k, seed, ctx):
             if skey(([int(i) for i in r.center_indices], r.assignments.tolist(), r.distances.tolist())) != \
                     skey(([int(i) for i in r2.center_indices], r2.assignments.tolist(), r2.distances.tolist())):
                 ctx.violation('e2e:not_reproducible:hybrid', case, 'same seed, different result (iters=%d)' % it)
+            if it == 0 and ([int(i) for i in r.center_indices] != [int(i) for i in base.center_indices]
+                            or not np.array_equal(r.distances, base.distances) or not np.array_equal(r.assignments, base.assignments)):
+                ctx.violation('e2e:hybrid0_is_not_the_kcenters_solution', case,
+                              'hybrid with 0 sweeps: centers %r dist %r; kcenters: centers %r dist %r' % (
+                                  [int(i) for i in r.center_indices], r.distances.tolist(), [int(i) for i in base.center_indices], base.distances.tolist()))
             if c > prev * (1 + 1e-12) + 1e-15:
                 ctx.violation('e2e:hybrid_cost_not_monotone', case,
                               'hybrid cost with %d sweeps %.12g > with %d sweeps %.12g (k-centers %.12g)' % (
@@ -316,10 +321,22 @@ def check_warm(case, ctx):
             {k: v[0] for k, v in outs.items()},))
 
 
+def e2e_sets(tier):
+    out = [t for t in cr.lattice_sets([0, 1, 2, 4, 7, 11], 5, 5)]
+    out += [t for t in cr.lattice_sets([0, 1, 3, 6, 10, 15, 21], 6, 6)][::(40 if tier == 'quick' else 4)]
+    return out[::(3 if tier == 'quick' else 1)]
+
+
 def run_shard(sh, ctx):
     tier, i = sh
     ds = datasets(tier)
     depth = 2 if tier == 'quick' else 3
+    es = e2e_sets(tier)
+    for j in range(i, len(es), NSH[tier]):
+        for metric in ('euclidean', 'sqeuclid'):
+            for k in (2, 3, 4):
+                check_e2e(es[j], metric, k, ctx.seed, ctx)
+                ctx.guard('e2e_larger_sets')
     for j in range(i, len(ds), NSH[tier]):
         pts = ds[j]
         n = len(pts)
@@ -332,6 +349,9 @@ def run_shard(sh, ctx):
                 st = explore_dataset(pts, metric, k, depth, ctx)
                 for s in (ctx.seed, ctx.seed + 1, ctx.seed + 2):
                     check_e2e(pts, metric, k, s, ctx)
+                # a dissimilarity that is NOT a metric (squared euclidean) is a legal callable too
+                check_e2e(pts, 'sqeuclid', k, ctx.seed, ctx)
+                ctx.guard('nonmetric_dissimilarity')
                 X = cr.as_array(pts, 'float64')
                 D = cr.dist_matrix(X, metric)
                 for sub in itertools.combinations(range(n), k):
